@@ -138,6 +138,9 @@ def audit_axioms(module: str, thms: list[str]) -> dict:
     return dict(ok=r.returncode == 0 and not missing, axioms=res, missing=missing, raw_tail=out[-3000:] if missing or r.returncode else "")
 
 
+CURRENT_TIER = None
+
+
 def proof_obligations(prop: str, extra_modules: list[str] | None = None, driver=True) -> dict:
     """Regenerate tables, build the property's theorem module (+ driver), audit axioms."""
     t0 = time.time()
@@ -166,6 +169,17 @@ def proof_obligations(prop: str, extra_modules: list[str] | None = None, driver=
         res["discharged"] = 0
     res["obligations"] = len(thms)
     res["ok"] = bool(res["build"]["ok"] and res["audit"]["ok"] and not res["bad_axioms"] and not res["forbidden_hits"] and thms)
+    if CURRENT_TIER == "thorough" and res["build"]["ok"]:
+        # independent re-check of the compiled theorem module by the toolchain's leanchecker
+        t1 = time.time()
+        try:
+            r = subprocess.run(["lake", "env", "leanchecker", module], cwd=LEAN_DIR, capture_output=True, text=True, timeout=1500)
+            res["leanchecker"] = dict(ok=r.returncode == 0, seconds=round(time.time() - t1, 1), tail=(r.stdout + r.stderr)[-400:])
+        except Exception as e:  # noqa: BLE001
+            res["leanchecker"] = dict(ok=False, seconds=round(time.time() - t1, 1), tail=str(e)[-400:])
+        if not res["leanchecker"]["ok"]:
+            res["ok"] = False
+            res["build"].setdefault("errors", []).append("leanchecker rejected " + module)
     res["wall_s"] = round(time.time() - t0, 2)
     return res
 
